@@ -46,7 +46,7 @@ def cases(draw, tier):
         n = D.weighted(draw, [(7, st.integers(2 * msl, max(2 * msl, nmax))), (2, st.integers(2 * msl, 2 * msl + 3)), (1, st.just(2 * msl))])
         if sc == "function":
             sc = {"cls": "FunctionLocalAnomalyScore", "key": draw(st.integers(0, 1000)), "modulus": draw(st.sampled_from([2, 3, 5, 7])),
-                  "offset": draw(st.sampled_from([0, 0, 1, 2]))}
+                  "offset": draw(st.sampled_from([0, 0, 1, 2])), "ncols": draw(st.sampled_from([1, 1, 2, 3]))}
             X = [[0.0] * p for _ in range(n)]
         else:
             X, _ = draw(D.structured_matrix(n, p, boundary_positions=(1, msl, n - msl, n - 2), max_shifts=1))
